@@ -218,6 +218,16 @@ fn spelling_cases(rep: &mut Rep, r: &mut Rng, exhaustive: bool) {
                 format!("{}", 100 + r.below(900)),
                 format!("{}.{}", r.below(1000), r.below(1000)),
                 format!("{}", r.below(100000)),
+                {
+                    // whole values of every digit count the unit allows within 10 000 years, and the integer-width
+                    // thresholds (2^31, 2^32, 10^9, 10^10 ...) where they fit
+                    let max = (100 * NPC / unit_ns(*u)) as u64;
+                    let lit = *r.pick(&[2_147_483_647u64, 2_147_483_648, 4_294_967_295, 4_294_967_296, 5_000_000_000, 9_999_999_999, 10_000_000_000, 999_999_999, 1_000_000_000, 65_535, 65_536, 16_777_216, 16_777_217, 99_999, 100_000]);
+                    let digits = 1 + r.below(format!("{max}").len() as u64) as u32;
+                    let rnd = 10u64.pow(digits - 1) + r.below(9 * 10u64.pow(digits - 1));
+                    let v = if r.bool() && lit <= max { lit } else { rnd.min(max) };
+                    format!("{v}")
+                },
             ]
         };
         for v in vals {
